@@ -191,6 +191,16 @@ pub fn check_string<E: Engine>(x: &[u8]) -> Result<bool, String> {
             x.len()
         ));
     }
+    // the reader-based entry point of the same serde form hands the visitor a transient buffer
+    let de_reader = guarded(|| bincode::deserialize_from::<_, RangeProof<E::P>>(std::io::Cursor::new(&framed)))?;
+    if de_reader.is_ok() != got.is_ok() {
+        return Err(format!(
+            "serde form read from a reader {} what from_bytes {} ({} bytes)",
+            if de_reader.is_ok() { "accepts" } else { "rejects" },
+            if got.is_ok() { "accepts" } else { "rejects" },
+            x.len()
+        ));
+    }
     if let Ok(p) = &got {
         let re = p.to_bytes();
         if re != x {
